@@ -98,6 +98,7 @@ noncomputable def modelsEquiv (F : Formula) (hwf : F.WF) {Obj : Type} (enc : Obj
     exact h3 _ _ (this.symm.trans (extend_restrict F.nvars (enc o)))
 
 namespace Fam
+namespace G2
 
 /-- The pattern shared by all families over one unary mapping group that starts at identifier 1:
 if `F` holds exactly under the assignments that encode a table with property `P`, then
@@ -133,5 +134,6 @@ theorem unary_counting_equiv (F : Formula) (hwf : F.WF) (k N : Nat) (hn : F.nvar
     (fun α hα => by obtain ⟨l, hl, h⟩ := b α hα; exact ⟨⟨l, hl⟩, h⟩)
     (fun o o' h => Subtype.ext (c o.1 o'.1 o.2 o'.2 h))⟩
 
+end G2
 end Fam
 end Cnfgen
